@@ -48,7 +48,7 @@ def run(chk, facts, tier):
                      '' if bad is None else '%s() is reachable in state %s: the planned event of a pending instant / changed connection is pulled back, the new parameters take effect before the instant' % (bad[0].cn, '/'.join(bad[1])),
                      node=bad[0] if bad else None, key='try_event_cancelation')
     chk.rule('pending-instant-fresh', 'end_event hands plan_next_connection_event a pending instant that is computed after handle_received_data() (which may defer a procedure in this very event)', floor=1)
-    chk.rule('resume-after-instant', 'handle_received_data stops only while a PDU is deferred and start_advertising_impl / apply clear the deferral', floor=2)
+    chk.rule('resume-after-instant', 'handle_received_data stops only while a PDU is deferred, tests the deferral again for every PDU of its loop, and start_advertising_impl / apply clear the deferral', floor=4)
     seen = set()
     for q in (LL + 'handle_ll_control_data', PH + 'handle_phy_request'):
         for fn in variants(facts, q, chk):
@@ -113,6 +113,30 @@ def run(chk, facts, tier):
         ok = ok or copies
         chk.instance('deferred-pdu-not-released', fn, 'handle_ll_control_data(pdu, ..); free_ll_l2cap_received()', ok,
                      '' if ok else 'the control PDU\'s ring slot is released unconditionally after handle_ll_control_data() stored a pointer to it in defered_ll_control_pdu_: PDUs received before the instant can overwrite the parameters that will be applied', node=hc[0] if hc else None, key='free after defer')
+        # nothing is processed behind a PDU that waits for its instant: the test is repeated for every PDU of the loop (a control PDU handled in this very call may just have been deferred)
+        def is_empty_test(l, op, rr):
+            return not isinstance(l, int) and strip_casts(l).is_call('empty') and is_name(base_object(strip_casts(l)), 'defered_ll_control_pdu_') and op == '!=' and (rr == 0 or cval(rr) == 0)
+        for c in fn.body.calls('handle_ll_control_data') + fn.body.calls('handle_l2cap_input'):
+            loops = []
+            n = c.parent
+            while n is not None:
+                if n.k in ('ForStmt', 'WhileStmt'):
+                    loops.append(n)
+                n = n.parent
+            per_iter = []
+            if loops:
+                per_iter += atoms(loops[0].child('cond'), True)
+                for i, br in enclosing_ifs(c):
+                    x, inside = i, False
+                    while x is not None:
+                        if x is loops[0]:
+                            inside = True
+                        x = x.parent
+                    if inside:
+                        per_iter += atoms(i.child('cond'), br == 'then')
+            okp = bool(loops) and any(is_empty_test(l, op, rr) for l, op, rr in per_iter)
+            chk.instance('resume-after-instant', fn, '%s() only while no PDU is deferred (tested for every PDU)' % c.cn, okp,
+                         '' if okp else 'PDUs behind a control PDU that was just deferred to its instant are processed in the same call: a second procedure replaces the deferred one (its instant is then never applied) or data overtakes the update', node=c, key='per pdu ' + str(c.cn))
         ent = [r for r in fn.returns() if any(not isinstance(l, int) and strip_casts(l).is_call('empty') and op == '==' and cval(rr) == 0 for l, op, rr in guard_atoms(fn, r))]
         chk.instance('resume-after-instant', fn, 'early return only while a PDU is deferred', len(ent) == 1, '' if len(ent) == 1 else 'reception is blocked for another reason than a pending instant', key='block')
     for fn in variants(facts, LL + 'handle_pending_ll_control', chk):
